@@ -12,6 +12,8 @@ import (
 type CSeq struct {
 	Seq    int
 	Method string
+	// text is the header value as received; it is re-encoded literally
+	text string
 }
 
 func ParseCSeq(s string) (*CSeq, error) {
@@ -21,12 +23,15 @@ func ParseCSeq(s string) (*CSeq, error) {
 		if err != nil {
 			return nil, err
 		}
-		return &CSeq{Seq: seq, Method: fields[1]}, nil
+		return &CSeq{Seq: seq, Method: fields[1], text: s}, nil
 	}
 	return nil, errors.New("malformatted CSeq header")
 }
 
 func (cs *CSeq) Write(writer io.Writer) (int, error) {
+	if cs.text != "" {
+		return io.WriteString(writer, cs.text)
+	}
 	return fmt.Fprintf(writer, "%d %s", cs.Seq, cs.Method)
 }
 
